@@ -82,3 +82,56 @@ func Harness_C18_canonical_first_vertex() {
 	vr.Assert("canonical first vertex is the lexicographic minimum", ok)
 	vr.Reach("end")
 }
+
+// The scalar and the vector surface integrals (Area/curvature vs Centroid) visit the same
+// oriented triangle sequence, origin changes included: with an arbitrary triangle function
+// (uninterpreted symbolically, an asymmetric polynomial natively) the scalar integral
+// equals the first component of the vector integral, term for term and in the same order.
+func vrTri(a, b, c Point) float64 {
+	if vr.Symbolic() {
+		return vr.UFF9("tri", a.X, a.Y, a.Z, b.X, b.Y, b.Z, c.X, c.Y, c.Z)
+	}
+	return a.X + 2*b.Y + 3*c.Z + 5*a.Y*b.Z - 7*c.X*a.Z
+}
+
+// native witness loops (never executed symbolically): vertex orders that force the fan
+// origin to move once and twice (vertices antipodal to vertex 0 and to the moved origin)
+func vrC18MirrorWitnesses() {
+	base := []Point{PointFromCoords(1, 0, 0), PointFromCoords(0, 1, 0), PointFromCoords(-1, 0, 0), PointFromCoords(0, 0, -1)}
+	for rot := 0; rot < 4; rot++ {
+		vs := make([]Point, 4)
+		for i := range vs {
+			vs[i] = base[(i+rot)%4]
+		}
+		l := &Loop{vertices: vs}
+		s := l.surfaceIntegralFloat64(vrTri)
+		p := l.surfaceIntegralPoint(func(a, b, c Point) Point {
+			var r Point
+			r.X = vrTri(a, b, c)
+			return r
+		})
+		vr.Assert("scalar and vector surface integrals sum the same oriented triangles in the same order", s == p.X)
+	}
+}
+
+func Harness_C18_surface_integrals_mirror() {
+	vr.Domain("RUF")
+	vr.NoMerge()
+	if !vr.Symbolic() {
+		vrC18MirrorWitnesses()
+	}
+	n := 4
+	if vr.Thorough() {
+		n = vr.Choose("n", 4, 5)
+	}
+	vs := vrDistinctVertices(n)
+	l := &Loop{vertices: vs}
+	s := l.surfaceIntegralFloat64(vrTri)
+	p := l.surfaceIntegralPoint(func(a, b, c Point) Point {
+		var r Point
+		r.X = vrTri(a, b, c)
+		return r
+	})
+	vr.Assert("scalar and vector surface integrals sum the same oriented triangles in the same order", s == p.X)
+	vr.Reach("end")
+}
